@@ -9,6 +9,7 @@ import (
 	"os"
 	"path/filepath"
 	"runtime/debug"
+	"sort"
 	"strings"
 	"sync"
 	"sync/atomic"
@@ -186,7 +187,9 @@ func (st *stress) doClose() error {
 
 func (st *stress) event(kind string, start int64) {
 	ts := st.sh.TableStore()
-	e := bgEvent{kind, start, st.tick(), fmt.Sprintf("%d/%d seq %d", ts.GetTableFileNum(mst, true), ts.GetTableFileNum(mst, false), ts.GetFileSeq())}
+	// (no GetFileSeq here: it is an unsynchronised accessor meant for quiesced shards - MergeShards -, calling it while
+	// flushes run would be a race the harness itself introduces)
+	e := bgEvent{kind, start, st.tick(), fmt.Sprintf("%d/%d", ts.GetTableFileNum(mst, true), ts.GetTableFileNum(mst, false))}
 	st.evMu.Lock()
 	st.events = append(st.events, e)
 	st.evMu.Unlock()
@@ -360,6 +363,8 @@ func (st *stress) reader(c int, r *gen.Rand, wg *sync.WaitGroup) {
 			if !nowClosing {
 				atomic.AddInt64(&st.out.QueryErrs, 1)
 				st.fail("query-error", c, qn, "query failed before close was called: %v", res.err)
+			} else {
+				time.Sleep(200 * time.Microsecond) // refused after the close / drop: do not spin
 			}
 			continue
 		}
@@ -680,10 +685,13 @@ func runStress(cfg stressCfg) stressOut {
 	go st.flusher(r.Fork(), &wgB)
 	go st.compactor(r.Fork(), &wgB)
 	if cfg.Engine {
-		wgB.Add(3)
+		wgB.Add(2)
 		go st.m2writer(r.Fork(), &wgB)
 		go st.dropper(r.Fork(), &wgB)
-		go st.raftLookups(r.Fork(), &wgB)
+		if os.Getenv("C04_SKIP_RAFT_LOOKUPS") == "" {
+			wgB.Add(1)
+			go st.raftLookups(r.Fork(), &wgB)
+		}
 	}
 
 	// one quiet window per round: forced flushes stop, then writers stop with rows left in the memtable; after the
@@ -702,7 +710,6 @@ func runStress(cfg stressCfg) stressOut {
 	}()
 	time.Sleep(time.Duration(cfg.DurationMs) * time.Millisecond)
 	// final close while everything is in flight
-	st.out.FileSeqEnd = sh.TableStore().GetFileSeq()
 	st.out.EndOrder = sh.TableStore().GetTableFileNum(mst, true)
 	st.out.EndUnorder = sh.TableStore().GetTableFileNum(mst, false)
 	st.closing.Store(true)
@@ -728,19 +735,19 @@ func runStress(cfg stressCfg) stressOut {
 		}
 	case <-time.After(2 * watchdog):
 		st.fail("close-deadlock", -1, -1, "close / drop did not return within %v while writers/readers/flush/compaction were in flight\n%s", 2*watchdog, allStacks())
-		st.out.CloseMs = time.Since(t0).Milliseconds()
-		return st.out
+		return st.abandoned()
 	}
 	st.out.CloseMs = time.Since(t0).Milliseconds()
 	st.closed.Store(true)
 	st.stop.Store(true)
+	st.out.FileSeqEnd = sh.TableStore().GetFileSeq()
 	fin := make(chan struct{})
 	go func() { wgW.Wait(); wgR.Wait(); wgB.Wait(); close(fin) }()
 	select {
 	case <-fin:
 	case <-time.After(2 * watchdog):
 		st.fail("post-close-hang", -1, -1, "clients still blocked %v after close returned\n%s", 2*watchdog, allStacks())
-		return st.out
+		return st.abandoned()
 	}
 	if cfg.Engine {
 		if cfg.Fin == "dropdb" && st.out.CloseErr == "" {
@@ -762,6 +769,14 @@ func runStress(cfg stressCfg) stressOut {
 	return st.out
 }
 
+// abandoned: the round is given up while clients are still running (they update the counters atomically): report the
+// configuration and the failures only
+func (st *stress) abandoned() stressOut {
+	st.mu.Lock()
+	defer st.mu.Unlock()
+	return stressOut{Kind: "stress", Cfg: st.cfg, Failures: append([]failure{}, st.out.Failures...), NFailures: st.out.NFailures, NInOrderLost: st.out.NInOrderLost}
+}
+
 func allStacks() string {
 	buf := make([]byte, 1<<20)
 	n := runtimeStack(buf)
@@ -774,6 +789,10 @@ func allStacks() string {
 			keep = append(keep, g)
 		}
 	}
+	// goroutines waiting for a read/write mutex first: they are what a deadlock report is about
+	sort.SliceStable(keep, func(i, j int) bool {
+		return strings.Contains(keep[i], "sync.(*RWMutex)") && !strings.Contains(keep[j], "sync.(*RWMutex)")
+	})
 	s = strings.Join(keep, "\n\n")
 	if len(s) > 30000 {
 		s = s[:30000]
